@@ -5,6 +5,7 @@ from __future__ import annotations
 import warnings
 
 import numpy as np
+from hypothesis import strategies as st
 
 from vlib.core import Discard
 from vlib.core import Property
@@ -176,6 +177,47 @@ def prop_independent(case):
     return {"nontrivial": True, "tags": ["two_groups"]}
 
 
+def prop_interleaved(pair):
+    """Two unrelated schemes alive in one process, evaluated alternately: each objective is that of its own scheme (no state
+    shared between optimizers, groups or providers of different schemes)."""
+    from vlib import capture
+
+    cases = list(pair)
+    refs_, caps = [], []
+    for case in cases:
+        why = conflicts(case)
+        if why:
+            raise Discard(why)
+        pts = [None] + list(case["points"])
+        try:
+            refs_.append([ref.reference(case, value_map(case, p)) for p in pts])
+        except ref.Ambiguous as a:
+            raise Discard(f"ambiguous: {a}")
+        except ref.IllConditioned as a:
+            raise Discard("ill-conditioned: " + str(a).split(" ")[0])
+    with warnings.catch_warnings():
+        warnings.simplefilter("ignore")
+        for case in cases:
+            with expect_ok("interleaved.setup"):
+                caps.append(capture.open_objective(schemes.make_scheme(case)))
+        # A0 B0 A1 B1 A2 B2 A0 B0
+        for k in (0, 1, 2, 0):
+            for which, (case, cap) in enumerate(zip(cases, caps)):
+                pts = [None] + list(case["points"])
+                if k >= len(pts):
+                    continue
+                vals = value_map(case, pts[k])
+                x = np.array([vals[l] for l in cap.labels])
+                with expect_ok("interleaved.call"):
+                    got = cap(x)
+                r = refs_[which][k]
+                dscale = max(np.abs(r["vector"]).max() if r["vector"].size else 0.0, 1.0)
+                compare_vectors(got, r["vector"], dscale, "interleaved", cond=r["max_cond"])
+    f = sorted(set(features(cases[0])) | set(features(cases[1])))
+    both_pen = all(c.get("penalties") for c in cases)
+    return {"nontrivial": True, "tags": f + (["both_with_penalties"] if both_pen else [])}
+
+
 PROPERTY = Property(
     id="C02",
     level="exploration",
@@ -192,6 +234,8 @@ PROPERTY = Property(
         Sub("objective", prop=prop, strategy=lambda: schemes.schemes(), budget={"quick": 1200, "thorough": 100000}),
         Sub("objective_tol", prop=prop, strategy=lambda: schemes.schemes(link_tolerance=True, allow_full=False).filter(lambda c: c["clp_link_tolerance"] > 0),
             budget={"quick": 400, "thorough": 30000}, doc="linked groups with clp_link_tolerance > 0, all three link methods"),
+        Sub("interleaved", prop=prop_interleaved, strategy=lambda: st.tuples(schemes.schemes(max_datasets=2), schemes.schemes(max_datasets=2)),
+            budget={"quick": 300, "thorough": 20000}, doc="two unrelated schemes alive in one process, evaluated alternately, each against its own reference"),
         Sub("independent", prop=prop_independent, strategy=lambda: schemes.schemes(max_datasets=3).filter(lambda c: len(c["groups"]) > 1),
             budget={"quick": 150, "thorough": 5000}),
     ],
